@@ -310,11 +310,32 @@ pub fn parse_ts_lit(s: &str) -> TsLit {
             None => TsLit::Maybe(None),
         };
     }
-    let lenient = regex::Regex::new(r"^\s*([+-]?\d{1,9})\s*-\s*(\d{1,2})\s*-\s*(\d{1,2})\s+(\d{1,2})\s*:\s*(\d{1,2})\s*:\s*(\d{1,2})\s*$").unwrap();
-    if let Some(c) = lenient.captures(s) {
-        let g = |i: usize| c[i].parse::<i64>().unwrap_or(-1);
-        if g(6) == 60 { return TsLit::Maybe(ts_from_parts(g(1), g(2), g(3), g(4), g(5), 59, 0).map(|t| t + 1_000_000)); }
-        return TsLit::Maybe(ts_from_parts(g(1), g(2), g(3), g(4), g(5), g(6), 0));
+    // lenient shapes a date library may accept: optional blanks around every field, a sign and any number of year digits,
+    // one or two digits for the other fields (so "2021-3-4 5:6:7", " 2021-03-04 05:06:07" and "2021-03-0405:06:07")
+    let b: Vec<char> = s.chars().collect();
+    let mut i = 0;
+    let skip_ws = |i: &mut usize| { while *i < b.len() && b[*i].is_whitespace() { *i += 1; } };
+    let digits = |i: &mut usize, max: usize| -> Option<i64> { let st = *i; while *i < b.len() && b[*i].is_ascii_digit() && *i - st < max { *i += 1; } if *i == st { None } else { b[st..*i].iter().collect::<String>().parse::<i64>().ok() } };
+    let lit = |i: &mut usize, c: char| -> bool { if *i < b.len() && b[*i] == c { *i += 1; true } else { false } };
+    let parsed = (|| -> Option<[i64; 6]> {
+        skip_ws(&mut i);
+        let neg = if lit(&mut i, '-') { true } else { lit(&mut i, '+'); false };
+        let y = digits(&mut i, 9)?; skip_ws(&mut i);
+        if !lit(&mut i, '-') { return None; } skip_ws(&mut i);
+        let mo = digits(&mut i, 2)?; skip_ws(&mut i);
+        if !lit(&mut i, '-') { return None; } skip_ws(&mut i);
+        let d = digits(&mut i, 2)?; skip_ws(&mut i);
+        let h = digits(&mut i, 2)?; skip_ws(&mut i);
+        if !lit(&mut i, ':') { return None; } skip_ws(&mut i);
+        let mi = digits(&mut i, 2)?; skip_ws(&mut i);
+        if !lit(&mut i, ':') { return None; } skip_ws(&mut i);
+        let se = digits(&mut i, 2)?; skip_ws(&mut i);
+        if i != b.len() { return None; }
+        Some([if neg { -y } else { y }, mo, d, h, mi, se])
+    })();
+    if let Some(p) = parsed {
+        if p[5] == 60 { return TsLit::Maybe(ts_from_parts(p[0], p[1], p[2], p[3], p[4], 59, 0).map(|t| t + 1_000_000)); }
+        return TsLit::Maybe(ts_from_parts(p[0], p[1], p[2], p[3], p[4], p[5], 0));
     }
     TsLit::No
 }
